@@ -216,6 +216,10 @@ func registerIntercepts(ex *Explorer) {
 	registerStore(ex)
 	registerCodec(ex)
 	registerMisc(ex)
+	registerEVM(ex)
+	// explicit init() of the evm package patches go-ethereum's precompile
+	// tables (library state that the A-EVM model does not use)
+	ex.register("github.com/rigochain/rigo-go/ctrlers/vm/evm.init#1", noop)
 }
 
 func binopInt32Add(a, b value) value {
@@ -287,31 +291,31 @@ func bytesToValues(b []byte) []value {
 	return out
 }
 
-// bytesEqTerm: equality of two byte strings whose elements may be symbolic
-// or opaque handles (handles compare structurally).
+// bytesEqTerm: equality of two byte strings whose elements may be concrete,
+// symbolic, or opaque handles (handles compare structurally).  A string that
+// is exactly one handle is compared as a whole; mixed strings elementwise.
 func bytesEqTerm(a, b []value) *Term {
-	if ha, ok := handleOf(a); ok {
-		hb, ok2 := handleOf(b)
-		if !ok2 {
-			if len(b) == 0 {
-				return tFalse
-			}
-			unsupp("comparison of an opaque byte string with concrete bytes")
-		}
-		return snapEq(ha.snap, hb.snap)
-	}
-	if _, ok := handleOf(b); ok {
-		if len(a) == 0 {
-			return tFalse
-		}
-		unsupp("comparison of concrete bytes with an opaque byte string")
-	}
 	if len(a) != len(b) {
 		return tFalse
 	}
 	var cs []*Term
 	for i := range a {
-		cs = append(cs, Eq(termOf(a[i]), termOf(b[i])))
+		ha, oka := a[i].(*handle)
+		hb, okb := b[i].(*handle)
+		switch {
+		case oka && okb:
+			if ha == hb {
+				continue
+			}
+			if ha.kind != hb.kind {
+				return tFalse
+			}
+			cs = append(cs, snapEq(ha.snap, hb.snap))
+		case oka != okb:
+			return tFalse
+		default:
+			cs = append(cs, Eq(termOf(a[i]), termOf(b[i])))
+		}
 	}
 	return And(cs...)
 }
@@ -319,12 +323,18 @@ func bytesEqTerm(a, b []value) *Term {
 // bytesCompare returns the int result of bytes.Compare; symbolic elements
 // give an exact lexicographic encoding.
 func bytesCompare(c *pathCtx, a, b []value) value {
-	if _, ok := handleOf(a); ok {
-		eq := bytesEqTerm(a, b)
-		if eq.isTrue() {
+	hasHandle := false
+	for _, e := range append(append([]value{}, a...), b...) {
+		if _, ok := e.(*handle); ok {
+			hasHandle = true
+		}
+	}
+	if hasHandle {
+		// only equality is meaningful for opaque strings
+		if c.branch(bytesEqTerm(a, b)) {
 			return 0
 		}
-		unsupp("ordering comparison of opaque byte strings")
+		return 1
 	}
 	n := len(a)
 	if len(b) < n {
